@@ -2,6 +2,7 @@
 
 from __future__ import annotations
 
+import importlib
 import json
 import multiprocessing as mp
 import os
@@ -209,7 +210,12 @@ def collect(check_name: str, runs: int, out_path: str) -> int:
     """Determinism self-test helper: per-run digests of everything a run observed."""
     seed_ = core.seed()
     workers = max(1, min(core.env_int("VERIF_WORKERS", 16), runs))
-    records, _, errors = _batch(check_name, seed_, list(range(runs)), runs, workers,
+    # a third of the runs from the directed opening of a batch (if the check has one), the rest from
+    # the random part (run indices are what they would be in a check: generation depends on them only)
+    offset = int(getattr(importlib.import_module(f"simverif.{check_name}"), "SELFTEST_OFFSET", 0))
+    head = runs // 3 if offset else runs
+    run_list = list(range(head)) + [offset + i for i in range(runs - head)]
+    records, _, errors = _batch(check_name, seed_, run_list, runs, workers,
                                 time.time() + 3600, {"tier": "selftest"})
     doc = {str(r["run"]): core.sha([r["stats"], sorted(v["sig"] for v in r.get("violations", []))])
            for r in records}
@@ -263,10 +269,11 @@ def run_check(check_name: str, tier: str, runs: int, budget_s: float, options: d
     # determinism probe: re-execute the first runs under another worker assignment
     n_re = min(int(options.get("recheck_runs", 12)), len(records))
     if n_re and not harness_errors:
-        redo, _, errs = _batch(check_name, seed_, [r["run"] for r in records[:n_re]], n_re,
+        sample = records[::max(1, len(records) // n_re)][:n_re]  # spread over the batch, not its opening only
+        redo, _, errs = _batch(check_name, seed_, [r["run"] for r in sample], n_re,
                                max(1, min(5, n_re)), time.time() + 600, dict(options, recheck=True))
         harness_errors += errs
-        first = {r["run"]: core.sha([r["stats"], sorted(v["sig"] for v in r.get("violations", []))]) for r in records[:n_re]}
+        first = {r["run"]: core.sha([r["stats"], sorted(v["sig"] for v in r.get("violations", []))]) for r in sample}
         for r in redo:
             again = core.sha([r["stats"], sorted(v["sig"] for v in r.get("violations", []))])
             if first.get(r["run"]) != again:
